@@ -2550,6 +2550,18 @@ impl InferContext {
 
                     let _res = this.unify_types(idt, bodyt);
 
+                    // MIR generation binds the name to the function made from the bound
+                    // expression: anything but a function cannot be bound recursively.
+                    if !matches!(
+                        Self::substitute_type(bodyt).to_type(),
+                        Type::Function { .. } | Type::Failure
+                    ) {
+                        this.errors.push(Error::NonFunctionForLetRec(
+                            bodyt,
+                            body_expr.to_location(),
+                        ));
+                    }
+
                     // Check if public function leaks private type in its declared signature
                     this.check_private_type_leak(id.id, id.ty, loc.clone());
                 });
